@@ -335,6 +335,21 @@ def tickUnreadable (s : Sys) : Sys × SendOut :=
     let o : SendOut := if !p.pending then .err else .none
     ({ s with failHdr := false, failSub := false }, o)
 
+/-- an epoch tick during which the nodes of the L1 info tree cannot be read (a transient storage failure on `l1_info_rht`):
+    a PP certificate that imports claims needs their L1 info proofs, so its build fails after the build parameters have been
+    obtained; a certificate without claims is not affected -/
+def tickL1Unreadable (size : Params → Nat) (s : Sys) : Sys × SendOut :=
+  if !s.up || s.cfg.fep then (s, .none)   -- (the aggchain-prover flow needs those nodes for every request: not exercised)
+  else
+    let (s, p) := poll s
+    let (s, o) :=
+      if !p.pending then
+        (match (buildAny size s).1 with
+         | .cert c _ _ => if c.claims.isEmpty then send size s false else ({ s with prover := (buildAny size s).2 }, .err)
+         | _ => send size s false)
+      else (s, .none)
+    ({ s with failHdr := false, failSub := false }, o)
+
 /-! ### start-up reconciliation -/
 
 inductive Action where
@@ -419,6 +434,7 @@ inductive Op where
   | prover (p : Prover)
   | opt (on : Bool)   -- the rollup contract's optimistic-mode flag changes
   | epochUnreadable   -- an epoch tick while the certificate table cannot be read
+  | epochL1Unreadable -- an epoch tick while the nodes of the L1 info tree cannot be read
   | crash
   | losedb
   | restart
@@ -436,6 +452,7 @@ def step (size : Params → Nat) (s : Sys) : Op → Sys
   | .prover p => { s with prover := p }
   | .opt b => { s with optOn := b }
   | .epochUnreadable => (tickUnreadable s).1
+  | .epochL1Unreadable => (tickL1Unreadable size s).1
   | .crash => { s with up := false }
   | .losedb => { s with up := false, loc := [] }
   | .restart => ({ (restart s).1 with failRec := false, failHdr := false })
